@@ -22,6 +22,10 @@
 sexp_heap sexp_global_heap;
 #endif
 
+#if CHIBI_VERIF
+struct sexp_verif_hooks sexp_verif;
+#endif
+
 #if SEXP_USE_CONSERVATIVE_GC
 static sexp* stack_base;
 #endif
@@ -84,6 +88,9 @@ void sexp_debug_alloc_sizes(sexp ctx) {
 #endif
 
 void sexp_free_heap (sexp_heap heap) {
+#if CHIBI_VERIF
+  if (sexp_verif.on_free_heap) sexp_verif.on_free_heap(heap);
+#endif
 #if SEXP_USE_MMAP_GC
   munmap(heap, sexp_heap_pad_size(heap->size));
 #else
@@ -559,6 +566,9 @@ sexp sexp_gc (sexp ctx, size_t *sum_freed) {
   sexp_debug_printf("%p (heap: %p size: %lu)", ctx, sexp_context_heap(ctx),
                     sexp_heap_total_size(sexp_context_heap(ctx)));
 #endif
+#if CHIBI_VERIF
+  if (sexp_verif.before_gc) sexp_verif.before_gc(ctx);
+#endif
   sexp_mark_global_symbols(ctx);
   sexp_mark(ctx, ctx);
   sexp_conservative_mark(ctx);
@@ -574,6 +584,9 @@ sexp sexp_gc (sexp ctx, size_t *sum_freed) {
   sexp_debug_printf("%p (freed: %lu max_freed: %lu finalized: %lu time: %luus)",
                     ctx, (sum_freed ? *sum_freed : 0), sexp_unbox_fixnum(res),
                     sexp_unbox_fixnum(finalized), gc_usecs);
+#endif
+#if CHIBI_VERIF
+  if (sexp_verif.after_gc) sexp_verif.after_gc(ctx);
 #endif
   return res;
 }
@@ -600,6 +613,9 @@ sexp_heap sexp_make_heap (size_t size, size_t max_size, size_t chunk_size) {
   free->next = next;
   next->size = size - sexp_heap_align(sexp_free_chunk_size);
   next->next = NULL;
+#if CHIBI_VERIF
+  if (sexp_verif.on_make_heap) sexp_verif.on_make_heap(h);
+#endif
 #if SEXP_USE_DEBUG_GC
   fprintf(stderr, SEXP_BANNER("heap: %p-%p data: %p-%p"),
           h, ((char*)h)+sexp_heap_pad_size(size), h->data, h->data + size);
@@ -652,6 +668,9 @@ void* sexp_try_alloc (sexp ctx, size_t size) {
 #endif
     for (ls1=h->free_list, ls2=ls1->next; ls2; ls1=ls2, ls2=ls2->next) {
       if (ls2->size >= size) {
+#if CHIBI_VERIF
+        if (sexp_verif.before_carve) sexp_verif.before_carve(ctx, ls2, ls2->size, size);
+#endif
 #if SEXP_USE_DEBUG_GC > 1
         ls3 = (sexp_free_list) sexp_heap_end(h);
         if (ls2 >= ls3)
@@ -709,6 +728,10 @@ void* sexp_alloc (sexp ctx, size_t size) {
   struct timeval start, end;
   gettimeofday(&start, NULL);
 #endif
+#if CHIBI_VERIF
+  size_t verif_requested = size;
+  if (sexp_verif.want_gc && sexp_verif.want_gc(ctx, size)) sexp_gc(ctx, NULL);
+#endif
   size = sexp_heap_align(size) + SEXP_GC_PAD;
 #if SEXP_USE_TRACK_ALLOC_SIZES
   size_bucket = (size - SEXP_GC_PAD) / sexp_heap_align(1) - 1;
@@ -739,6 +762,9 @@ void* sexp_alloc (sexp ctx, size_t size) {
   sexp_context_alloc_count(ctx) += 1;
   sexp_context_alloc_usecs(ctx) += alloc_time;
   sexp_context_alloc_usecs_sq(ctx) += alloc_time*alloc_time;
+#endif
+#if CHIBI_VERIF
+  if (sexp_verif.after_alloc) sexp_verif.after_alloc(ctx, res, verif_requested, size);
 #endif
   return res;
 }
